@@ -39,16 +39,14 @@ Theorem C14_check_sound : forall pf c h, c14_ok (run true pf (init c) h) = true.
 Proof. intros. apply c14_ok_iff, C14_guarded. Qed.
 Print Assumptions C14_check_sound.
 
-(* ---- without the guard the statement fails: three witnesses, each replayed on the real class by checks/C14.py *)
+(* ---- without the guard the statement fails: two witnesses, each replayed on the real class by checks/C14.py *)
 Definition w_cfg := mkConfig [1; 2; 3] (Some 1000) [100] [(1, POk); (2, POk); (3, POk)] 0.
 (* two speculative executions both answer: callbacks run twice *)
 Definition w_spec := [AddCb; Send; Tick 100; Fire 0; Resp 0 (RRows false); Resp 1 (RRows false)].
 (* the client timeout fires, then the first attempt answers: errback and callback both run *)
 Definition w_late := [AddCb; Send; Tick 100; Fire 0; Tick 900; Fire 1; Resp 0 (RRows false)].
-(* no speculative execution at all: RETRY on the same host leaves _req_id stale, the timeout cannot withdraw the retried
-   request, its late answer runs the callback after the errback *)
+(* a configuration without speculative executions *)
 Definition w_cfg1 := mkConfig [1; 2; 3] (Some 1000) [] [(1, POk); (2, POk); (3, POk)] 0.
-Definition w_retry := [AddCb; Send; Resp 0 (RRetry DRetry); Run 0; Tick 1000; Fire 0; Resp 1 (RRows false)].
 
 Theorem C14_without_guard_refuted : forall pf, ~ C14_statement false pf.
 Proof.
@@ -64,11 +62,6 @@ Proof. split; vm_compute; reflexivity. Qed.
 Example C14_witness_late : pairs (run false true (init w_cfg) w_late) = [mkPair [10] [1]]
                            /\ pairs (run true true (init w_cfg) w_late) = [mkPair [] [1]].
 Proof. split; vm_compute; reflexivity. Qed.
-Example C14_witness_retry : pairs (run false true (init w_cfg1) w_retry) = [mkPair [11] [2]]
-                            /\ result_call (run false true (init w_cfg1) w_retry) = Some (0, 11)
-                            /\ pairs (run true true (init w_cfg1) w_retry) = [mkPair [] [2]].
-Proof. repeat split; vm_compute; reflexivity. Qed.
-
 (* non-vacuity: a history with two attempts in flight and a registered pair reaches "everything answered",
    with the outcome delivered exactly once and reported by result() *)
 Example C14_nonvacuous :
